@@ -829,6 +829,10 @@ func QueryTails(yield func(name string, s S)) {
 // DMLCases yields clause subsets of INSERT / UPDATE / DELETE / MERGE.
 func DMLCases(yield func(name string, s S)) {
 	with := &With{CTEs: []CTE{{Name: "w1", Body: simpleSel("t9")}}}
+	// rows of different lengths (the parser does not compare row arities): shorter first and longer first
+	sq := Sel{Items: []SelItem{{X: Func("f3", []X{Col("c8")}, FuncOpts{})}}, From: []TableRef{{Name: "t8"}}}.Build()
+	yield("insert-ragged-short-first", Ins{Table: "t1", Cols: []string{"c1"}, Rows: [][]X{{Int("1")}, {Int("2"), Col("c7"), Subq(sq)}}}.Build())
+	yield("insert-ragged-long-first", Ins{Table: "t1", Rows: [][]X{{Int("1"), Col("c7"), Subq(sq)}, {Int("2")}, {Int("3"), Func("f4", []X{Col("c9")}, FuncOpts{})}}}.Build())
 	for m := 0; m < 1<<5; m++ {
 		s := Ins{Table: "t1", Rows: [][]X{{Int("1"), Str("s1")}}}
 		if m&1 != 0 {
